@@ -1,5 +1,5 @@
-(* Soundness of Kind::remove with respect to `member`, on the domain `remove_ok`, for paths whose last
-   segment is a field (element removal goes through remove_shift and is not covered here). *)
+(* Soundness of Kind::remove with respect to `member`, on the domain `remove_ok` (element removal goes
+   through remove_shift, which is right only inside shift_ok). *)
 From Coq Require Import List NArith ZArith Bool Lia.
 From VRL Require Import Base.Bytes Base.Value Model.ValueCrud Model.Kind Model.KindCrud Model.KindDomains
   Proofs.ValueCrudProofs Proofs.KindBasics Proofs.KindMergeProofs Proofs.KindGetProofs Proofs.KindInsertProofs.
@@ -369,6 +369,224 @@ Lemma rm_index_inner a i s' p' prune :
   end.
 Proof. reflexivity. Qed.
 
+(* ---------- Vec::remove ---------- *)
+
+Lemma nth_error_remove_nth {A} (l : list A) : forall idx n,
+  nth_error (list_remove_nth l idx) n = if Nat.ltb n idx then nth_error l n else nth_error l (S n).
+Proof.
+  induction l as [|x l IH]; intros idx n.
+  - cbn [list_remove_nth]. destruct (Nat.ltb n idx); destruct n; reflexivity.
+  - destruct idx as [|idx]; cbn [list_remove_nth].
+    + reflexivity.
+    + destruct n as [|n]; cbn [nth_error]; auto. rewrite IH.
+      destruct (Nat.ltb_spec n idx), (Nat.ltb_spec (S n) (S idx)); auto; lia.
+Qed.
+
+Lemma length_remove_nth {A} (l : list A) : forall idx, idx < length l -> length (list_remove_nth l idx) = length l - 1.
+Proof.
+  induction l as [|x l IH]; intros idx Hl; cbn in *; [lia|].
+  destruct idx; cbn; [lia|]. rewrite IH by lia. lia.
+Qed.
+
+(* ---------- remove_shift, key by key ---------- *)
+
+Definition shift_step (idx : nat) (m : list (nat * kind)) : list (nat * kind) :=
+  match aget Nat.eqb m (S idx) with
+  | Some x => aset Nat.compare (adel Nat.eqb m (S idx)) idx x
+  | None => m
+  end.
+
+Lemma aget_adel' (m : list (nat * kind)) k n :
+  aget Nat.eqb (adel Nat.eqb m k) n = if Nat.eqb k n then None else aget Nat.eqb m n.
+Proof. apply (aget_adel Nat.eqb nat_eqb_spec'). Qed.
+
+Lemma aget_aset' (m : list (nat * kind)) k x n :
+  aget Nat.eqb (aset Nat.compare m k x) n = if Nat.eqb k n then Some x else aget Nat.eqb m n.
+Proof. apply (aget_aset Nat.eqb Nat.compare nat_eqb_spec' nat_cmp_spec'). Qed.
+
+Lemma shift_step_idem idx m : shift_step idx (shift_step idx m) = shift_step idx m.
+Proof.
+  unfold shift_step. destruct (aget Nat.eqb m (S idx)) as [x|] eqn:E.
+  - rewrite aget_aset', aget_adel'.
+    destruct (Nat.eqb_spec idx (S idx)); [lia|]. rewrite Nat.eqb_refl. reflexivity.
+  - rewrite E. reflexivity.
+Qed.
+
+Lemma fold_shift_step idx (l : list nat) : forall m,
+  fold_left (fun m _ => shift_step idx m) l m = match l with [] => m | _ :: _ => shift_step idx m end.
+Proof.
+  induction l as [|a l IH]; intros m; cbn; auto. rewrite IH. destruct l; auto. apply shift_step_idem.
+Qed.
+
+Lemma remove_shift_known c idx :
+  known (remove_shift c idx) =
+  if Nat.leb (min_length c) idx then adel Nat.eqb (known c) idx
+  else shift_step idx (adel Nat.eqb (known c) idx).
+Proof.
+  unfold remove_shift. cbn [set_known known]. fold (shift_step idx).
+  change (fun (m : list (nat * kind)) (_ : nat) =>
+            match aget Nat.eqb m (S idx) with
+            | Some x => aset Nat.compare (adel Nat.eqb m (S idx)) idx x
+            | None => m
+            end) with (fun (m : list (nat * kind)) (_ : nat) => shift_step idx m).
+  rewrite fold_shift_step. destruct (Nat.leb_spec (min_length c) idx) as [Hl|Hl].
+  - replace (min_length c - idx) with 0 by lia. reflexivity.
+  - destruct (min_length c - idx) eqn:E; [lia|]. reflexivity.
+Qed.
+
+Lemma unknown_remove_shift c idx : unknown_kind (remove_shift c idx) = unknown_kind c.
+Proof. reflexivity. Qed.
+
+(* an index whose known kind has a defined state lies below min_length *)
+Lemma fold_max_ge r : forall x y, In y (x :: r) -> y <= fold_left Nat.max r x.
+Proof.
+  intros x y Hin. destruct (fold_max_spec r x) as (_ & H1 & H2). destruct Hin as [->|Hin]; auto.
+Qed.
+
+Lemma defined_below_min_length c j kk : In (j, kk) (known c) -> contains_any_defined kk = true -> j < min_length c.
+Proof.
+  intros Hin Hd. unfold min_length, largest_known_index.
+  assert (In j (map fst (filter (fun kv => contains_any_defined (snd kv)) (known c)))) as Hj.
+  { apply in_map_iff. exists (j, kk). split; auto. apply filter_In. auto. }
+  pose proof (max_opt_spec (map fst (filter (fun kv => contains_any_defined (snd kv)) (known c)))) as Hs.
+  destruct (max_opt _) as [m|]; [|rewrite Hs in Hj; contradiction].
+  destruct Hs as [_ Hs]. specialize (Hs _ Hj). lia.
+Qed.
+
+Lemma shift_ok_spec c idx j : shift_ok c idx = true -> S idx < j -> aget Nat.eqb (known c) j = None.
+Proof.
+  unfold shift_ok. rewrite forallb_forall. intros H Hj.
+  destruct (aget Nat.eqb (known c) j) as [kk|] eqn:E; auto.
+  specialize (H (j, kk) (aget_in Nat.eqb nat_eqb_spec' _ _ _ E)). cbn in H. apply Nat.leb_le in H. lia.
+Qed.
+
+Lemma member_defined v k : member v k = true -> contains_any_defined k = true.
+Proof.
+  intros H. destruct (contains_any_defined k) eqn:E; auto.
+  rewrite (not_defined_no_member _ _ E) in H. discriminate.
+Qed.
+
+(* the removed-and-shifted collection types the array with element idx taken out *)
+Lemma arr_ok_shifted vs c idx : arr_ok vs c = true -> shift_ok c idx = true -> idx < length vs ->
+  arr_ok (list_remove_nth vs idx) (remove_shift c idx) = true.
+Proof.
+  intros Hm Hs Hidx.
+  (* what the shifted collection assigns to each index *)
+  set (o1 := aget Nat.eqb (known c) (S idx)).
+  set (moved := negb (Nat.leb (min_length c) idx) && is_some o1).
+  assert (forall n, coll_at Nat.eqb (remove_shift c idx) n =
+                    if Nat.ltb n idx then coll_at Nat.eqb c n
+                    else if Nat.eqb n idx then (if moved then coll_at Nat.eqb c (S idx) else unknown_kind c)
+                    else if Nat.eqb n (S idx) then (if moved then unknown_kind c else coll_at Nat.eqb c (S idx))
+                    else unknown_kind c) as Hat.
+  { intros n. unfold coll_at at 1. rewrite remove_shift_known, unknown_remove_shift. unfold moved, o1.
+    destruct (Nat.leb (min_length c) idx); cbn [negb andb].
+    - rewrite aget_adel'. destruct (Nat.ltb_spec n idx) as [Hn|Hn].
+      + destruct (Nat.eqb_spec idx n); [lia|]. reflexivity.
+      + destruct (Nat.eqb_spec n idx) as [->|Hne]; [rewrite Nat.eqb_refl; reflexivity|].
+        destruct (Nat.eqb_spec idx n); [congruence|].
+        destruct (Nat.eqb_spec n (S idx)) as [->|Hne2]; [reflexivity|].
+        rewrite (shift_ok_spec c idx n Hs) by lia. reflexivity.
+    - unfold shift_step. rewrite aget_adel'. destruct (Nat.eqb_spec idx (S idx)); [lia|].
+      destruct (aget Nat.eqb (known c) (S idx)) as [x|] eqn:E1; cbn [is_some].
+      + rewrite aget_aset', !aget_adel'. destruct (Nat.ltb_spec n idx) as [Hn|Hn].
+        * destruct (Nat.eqb_spec idx n); [lia|]. destruct (Nat.eqb_spec (S idx) n); [lia|]. reflexivity.
+        * destruct (Nat.eqb_spec n idx) as [->|Hne].
+          -- rewrite Nat.eqb_refl. unfold coll_at. rewrite E1. reflexivity.
+          -- destruct (Nat.eqb_spec idx n); [congruence|].
+             destruct (Nat.eqb_spec n (S idx)) as [->|Hne2]; [rewrite Nat.eqb_refl; reflexivity|].
+             destruct (Nat.eqb_spec (S idx) n); [congruence|].
+             rewrite (shift_ok_spec c idx n Hs) by lia. reflexivity.
+      + rewrite aget_adel'. destruct (Nat.ltb_spec n idx) as [Hn|Hn].
+        * destruct (Nat.eqb_spec idx n); [lia|]. reflexivity.
+        * destruct (Nat.eqb_spec n idx) as [->|Hne]; [rewrite Nat.eqb_refl; reflexivity|].
+          destruct (Nat.eqb_spec idx n); [congruence|].
+          destruct (Nat.eqb_spec n (S idx)) as [->|Hne2]; [unfold coll_at; rewrite E1; reflexivity|].
+          rewrite (shift_ok_spec c idx n Hs) by lia. reflexivity. }
+  (* an element at S idx of a kind that is known forces the move *)
+  assert (forall y, nth_error vs (S idx) = Some y -> is_some o1 = true -> moved = true) as Hmv.
+  { intros y Hy Ho. unfold moved. rewrite Ho, andb_true_r. unfold o1 in Ho.
+    destruct (aget Nat.eqb (known c) (S idx)) as [x|] eqn:E1; [|discriminate].
+    pose proof (arr_ok_elem _ _ _ _ Hm Hy) as Hyx. unfold coll_at in Hyx. rewrite E1 in Hyx.
+    pose proof (defined_below_min_length c (S idx) x (aget_in Nat.eqb nat_eqb_spec' _ _ _ E1) (member_defined _ _ Hyx)).
+    destruct (Nat.leb_spec (min_length c) idx); [lia | reflexivity]. }
+  apply arr_ok_intro.
+  - intros n y Hn. rewrite nth_error_remove_nth in Hn. rewrite Hat.
+    destruct (Nat.ltb_spec n idx) as [Hlt|Hge].
+    + eapply arr_ok_elem; eauto.
+    + pose proof (arr_ok_elem _ _ _ _ Hm Hn) as Hy.
+      destruct (Nat.eqb_spec n idx) as [->|Hne].
+      * destruct moved eqn:Emv; auto.
+        unfold coll_at in Hy. fold o1 in Hy. destruct o1 as [x|] eqn:Eo; auto.
+        specialize (Hmv y Hn eq_refl). congruence.
+      * assert (aget Nat.eqb (known c) (S n) = None) as En by (apply (shift_ok_spec c idx); auto; lia).
+        unfold coll_at in Hy. rewrite En in Hy.
+        destruct (Nat.eqb_spec n (S idx)) as [->|Hne2]; auto.
+        destruct moved eqn:Emv; auto.
+        (* not moved although S idx still holds a known kind: then nothing can sit at S idx, let alone behind it *)
+        unfold coll_at. fold o1. destruct o1 as [x|] eqn:Eo; auto.
+        assert (S idx < length vs) as Hl by (assert (S (S idx) < length vs) by (apply nth_error_Some; congruence); lia).
+        destruct (nth_error vs (S idx)) as [z|] eqn:Ez; [|apply nth_error_None in Ez; lia].
+        specialize (Hmv z eq_refl eq_refl). congruence.
+  - intros n Hl. rewrite length_remove_nth in Hl by auto. rewrite Hat.
+    destruct (Nat.ltb_spec n idx) as [Hlt|Hge]; [lia|].
+    destruct (Nat.eqb_spec n idx) as [->|Hne].
+    + destruct moved; [|apply p_undefined_unknown_kind]. eapply arr_ok_absent; eauto. lia.
+    + destruct (Nat.eqb_spec n (S idx)) as [->|Hne2]; [|apply p_undefined_unknown_kind].
+      destruct moved eqn:Emv; [apply p_undefined_unknown_kind|].
+      destruct (Nat.le_gt_cases (length vs) (S idx)) as [Hle|Hgt]; [eapply arr_ok_absent; eauto|].
+      (* S idx is inside the array: its element makes its kind defined, hence moved *)
+      destruct (nth_error vs (S idx)) as [z|] eqn:Ez; [|apply nth_error_None in Ez; lia].
+      unfold coll_at. fold o1. destruct o1 as [x|] eqn:Eo; [|apply p_undefined_unknown_kind].
+      specialize (Hmv z eq_refl eq_refl). congruence.
+Qed.
+
+Lemma forallb_aset (P : nat * kind -> bool) (m : list (nat * kind)) k x :
+  forallb P m = true -> P (k, x) = true -> forallb P (aset Nat.compare m k x) = true.
+Proof.
+  intros Hm Hx. induction m as [|[k' y] m IH]; cbn in *.
+  - rewrite Hx. reflexivity.
+  - apply andb_true_iff in Hm. destruct Hm as [Hy Hm]. destruct (Nat.compare k' k); cbn.
+    + rewrite Hx, Hm. reflexivity.
+    + rewrite Hy, IH; auto.
+    + rewrite Hx, Hy, Hm. reflexivity.
+Qed.
+
+Lemma shift_ok_set c idx x : shift_ok c idx = true ->
+  shift_ok (set_known c (aset Nat.compare (known c) idx x)) idx = true.
+Proof.
+  unfold shift_ok. cbn [set_known known]. intros H. apply forallb_aset; auto. cbn. apply Nat.leb_le. lia.
+Qed.
+
+Lemma arr_ok_pointwise vs (c c' : acoll) :
+  (forall n, coll_at Nat.eqb c' n = coll_at Nat.eqb c n) -> arr_ok vs c = true -> arr_ok vs c' = true.
+Proof.
+  intros He Hm. apply arr_ok_intro.
+  - intros n y Hn. rewrite He. eapply arr_ok_elem; eauto.
+  - intros n Hl. rewrite He. eapply arr_ok_absent; eauto.
+Qed.
+
+Lemma compact_a_last vs (c1 : acoll) idx co cpt :
+  arr_ok vs c1 = true -> shift_ok c1 idx = true -> co <> CPanic ->
+  (co = CAlways -> p_undefined (prims_of (coll_at Nat.eqb c1 idx)) = false) ->
+  (co = CNever -> contains_any_defined (coll_at Nat.eqb c1 idx) = false) ->
+  (co = CMaybe -> ccompat Nat.eqb union_compat (remove_shift c1 idx) c1 = true) ->
+  arr_ok (match nth_error vs idx with Some _ => list_remove_nth vs idx | None => vs end)
+         (fst (compact_a co c1 idx cpt)) = true.
+Proof.
+  intros Hm Hs Hp HA HN HM. destruct co; cbn [compact_a compact fst]; try congruence.
+  - destruct (nth_error vs idx) eqn:Eg.
+    + apply arr_ok_shifted; auto. apply nth_error_Some. congruence.
+    + pose proof (arr_ok_absent _ _ idx Hm) as Hu. rewrite (HA eq_refl) in Hu.
+      apply nth_error_None in Eg. specialize (Hu Eg). discriminate.
+  - apply (arr_ok_cmerge union union_compat union_sound union_undefined); auto.
+    destruct (nth_error vs idx) eqn:Eg; [left | right; auto].
+    apply arr_ok_shifted; auto. apply nth_error_Some. congruence.
+  - destruct (nth_error vs idx) as [w|] eqn:Eg; auto.
+    pose proof (arr_ok_elem _ _ _ _ Hm Eg) as Hw.
+    rewrite (not_defined_no_member _ _ (HN eq_refl)) in Hw. discriminate.
+Qed.
+
 (* ---------- the last segment: a field ---------- *)
 
 Lemma union_HU x y v : union_compat x y = true -> member v x = true \/ member v y = true -> member v (union x y) = true.
@@ -424,16 +642,89 @@ Proof.
   destruct (contains_any_defined k), (p_undefined (prims_of k)); cbn; repeat split; congruence.
 Qed.
 
+(* ---------- the last segment: an index ---------- *)
+
+Lemma at_seg_index_rm k c i idx : arr_of k = Some c -> rm_index c i = Some (Some idx) ->
+  at_seg k (SIndex i) = at_index k c idx.
+Proof.
+  intros Ha Hr. cbn [at_seg]. rewrite Ha. destruct (Z.ltb_spec i 0) as [Hi|Hi].
+  - destruct (rm_index_neg _ _ _ Hr Hi) as (Hd & _ & _ & Hidx). rewrite Hd. fold (known_len c).
+    destruct (Nat.leb (Z.to_nat (- i)) (known_len c)) eqn:El; [|discriminate].
+    inversion Hidx; subst idx. apply Nat.leb_le in El. f_equal. lia.
+  - rewrite <- (rm_index_pos _ _ _ Hr Hi). reflexivity.
+Qed.
+
+Lemma arr_remove_at vs i idx : arr_index (length vs) i = Some idx ->
+  arr_remove vs i = match nth_error vs idx with Some x => Some (x, list_remove_nth vs idx) | None => None end.
+Proof. unfold arr_remove. intros ->. reflexivity. Qed.
+
+Lemma last_index_sound k c i idx vs cpt : is_never k = false -> arr_of k = Some c ->
+  rm_index c i = Some (Some idx) -> arr_ok vs c = true -> shift_ok c idx && maybe_ok_a c idx = true ->
+  member (VArr (match nth_error vs idx with Some _ => list_remove_nth vs idx | None => vs end))
+         (fst (remove_inner k [SIndex i] cpt)) = true.
+Proof.
+  intros Hn Ha Hr Hm Hok. apply andb_true_iff in Hok. destruct Hok as [Hsh Hmb].
+  rewrite (remove_inner_index k i [] cpt c idx Hn Ha Hr).
+  assert (exists c1 co, (match aget Nat.eqb (known c) idx with
+                         | Some child => let '(child', co) := remove_inner child [] cpt in
+                                         (set_known c (aset Nat.compare (known c) idx child'), co)
+                         | None => (c, snd (remove_inner (at_path k [SIndex i]) [] cpt))
+                         end) = (c1, co)
+                        /\ arr_ok vs c1 = true /\ shift_ok c1 idx = true /\ co <> CPanic
+                        /\ (co = CAlways -> p_undefined (prims_of (coll_at Nat.eqb c1 idx)) = false)
+                        /\ (co = CNever -> contains_any_defined (coll_at Nat.eqb c1 idx) = false)
+                        /\ (co = CMaybe -> ccompat Nat.eqb union_compat (remove_shift c1 idx) c1 = true))
+    as (c1 & co & -> & Hm1 & Hs1 & Hp & HA & HN & HM).
+  { unfold maybe_ok_a in Hmb. destruct (aget Nat.eqb (known c) idx) as [child|] eqn:E.
+    - exists (set_known c (aset Nat.compare (known c) idx child)).
+      assert (forall n, coll_at Nat.eqb (set_known c (aset Nat.compare (known c) idx child)) n = coll_at Nat.eqb c n) as Hpt.
+      { intros n. rewrite (coll_at_set Nat.eqb Nat.compare nat_eqb_spec' nat_cmp_spec').
+        destruct (Nat.eqb_spec idx n) as [<-|]; auto. unfold coll_at. rewrite E. reflexivity. }
+      assert (coll_at Nat.eqb (set_known c (aset Nat.compare (known c) idx child)) idx = child) as Hcf.
+      { rewrite (coll_at_set Nat.eqb Nat.compare nat_eqb_spec' nat_cmp_spec'), Nat.eqb_refl. reflexivity. }
+      destruct (is_never child) eqn:Hnc.
+      + exists CNever. cbn [remove_inner]. rewrite Hnc. rewrite <- (is_never_eq _ Hnc).
+        repeat split; try congruence.
+        * eapply arr_ok_pointwise; eauto.
+        * apply shift_ok_set; auto.
+        * intros _. rewrite Hcf. rewrite (is_never_eq _ Hnc). reflexivity.
+      + exists (co_new (contains_any_defined child) (contains_undefined child)).
+        rewrite remove_inner_nil by auto. destruct (co_new_cases child Hnc) as (H1 & H2 & H3).
+        rewrite Hcf. repeat split; auto.
+        * eapply arr_ok_pointwise; eauto.
+        * apply shift_ok_set; auto.
+    - exists c. set (apk := at_path k [SIndex i]).
+      assert (apk = (if is_exact k then unknown_kind c else or_undefined (unknown_kind c))) as Hapk.
+      { unfold apk. rewrite at_path_step by auto. rewrite (at_seg_index_rm k c i idx Ha Hr).
+        unfold at_index, coll_at. rewrite E. cbn [at_path]. destruct (is_exact k).
+        - rewrite is_never_unknown_kind. reflexivity.
+        - rewrite is_never_or_undefined. reflexivity. }
+      assert (is_never apk = false) as Hna.
+      { rewrite Hapk. destruct (is_exact k); [apply is_never_unknown_kind | apply is_never_or_undefined]. }
+      assert (p_undefined (prims_of apk) = true) as Hua.
+      { rewrite Hapk. destruct (is_exact k); [apply p_undefined_unknown_kind | apply p_undefined_or_undefined]. }
+      assert (contains_any_defined apk = contains_any_defined (unknown_kind c)) as Hda.
+      { rewrite Hapk. destruct (is_exact k); auto. apply any_defined_or_undefined. }
+      exists (co_new (contains_any_defined apk) (contains_undefined apk)).
+      rewrite remove_inner_nil by auto. cbn [snd]. destruct (co_new_cases apk Hna) as (H1 & H2 & H3).
+      repeat split; auto.
+      + intros Hco. rewrite (H2 Hco) in Hua. discriminate.
+      + intros Hco. unfold coll_at. rewrite E. rewrite <- Hda. auto. }
+  destruct (compact_a co c1 idx cpt) as [c2 co'] eqn:Ec. cbn [fst]. rewrite member_arr_kind.
+  replace c2 with (fst (compact_a co c1 idx cpt)) by (rewrite Ec; reflexivity).
+  apply compact_a_last; auto.
+Qed.
+
 (* ---------- the induction ---------- *)
 
 Lemma last_field_cons s s' p : last_field (s :: s' :: p) = last_field (s' :: p).
 Proof. destruct s; reflexivity. Qed.
 
-Lemma rm_sound cpt : forall p k v, wf_value v = true -> last_field p = true -> rm_ok k p = true ->
+Lemma rm_sound cpt : forall p k v, wf_value v = true -> rm_ok k p = true ->
   (cpt = false \/ length p <= 1) -> member v k = true ->
   member (rm_res v p cpt) (fst (remove_inner k p cpt)) = true.
 Proof.
-  induction p as [|s p IH]; intros k v Hwf Hlast Hok Hc Hm; pose proof (member_not_never _ _ Hm) as Hn.
+  induction p as [|s p IH]; intros k v Hwf Hok Hc Hm; pose proof (member_not_never _ _ Hm) as Hn.
   - rewrite remove_inner_nil by auto. exact Hm.
   - cbn [rm_ok] in Hok. rewrite Hn in Hok. destruct s as [f|i].
     + (* ---- field ---- *)
@@ -498,7 +789,6 @@ Proof.
         apply compact_o_last; auto.
       * (* an inner segment: compaction is off *)
         assert (cpt = false) as -> by (destruct Hc as [Hc|Hc]; [auto | cbn in Hc; lia]).
-        rewrite last_field_cons in Hlast.
         destruct (aget bytes_eqb (known c) f) as [child|] eqn:E.
         -- pose proof (remove_inner_co (s' :: p') child ltac:(congruence) Hok) as Hco.
            destruct (remove_inner child (s' :: p') false) as [child' co] eqn:Er. cbn [snd] in Hco. subst co.
@@ -511,7 +801,7 @@ Proof.
            assert (coll_at bytes_eqb c f = child) as Hcc by (unfold coll_at; rewrite E; reflexivity).
            unfold rm_res. rewrite rm_field_inner. destruct (obj_get m f) as [cv|] eqn:Eg.
            ++ pose proof (obj_ok_elem _ _ _ _ Hm (obj_get_in _ _ _ Eg)) as Hcv. rewrite Hcc in Hcv.
-              specialize (IH child cv (Hwfc _ _ (obj_get_in _ _ _ Eg)) Hlast Hok (or_introl eq_refl) Hcv).
+              specialize (IH child cv (Hwfc _ _ (obj_get_in _ _ _ Eg)) Hok (or_introl eq_refl) Hcv).
               rewrite Er in IH. cbn [fst] in IH. unfold rm_res in IH.
               destruct (rm cv (s' :: p') false) as [[prev cv'']|] eqn:Erm.
               ** cbn [andb]. rewrite member_obj. cbn [obj_of]. apply obj_ok_intro.
@@ -548,18 +838,32 @@ Proof.
            unfold rm_res. rewrite rm_field_inner. destruct (obj_get m f) as [cv|] eqn:Eg; [|rewrite member_obj_kind; exact Hm].
            pose proof (obj_ok_elem _ _ _ _ Hm (obj_get_in _ _ _ Eg)) as Hcv. unfold coll_at in Hcv.
            rewrite E, (not_defined_no_member _ _ Hok) in Hcv. discriminate.
-    + (* ---- index (never the last segment here) ---- *)
-      destruct p as [|s' p']; [discriminate|].
-      assert (cpt = false) as -> by (destruct Hc as [Hc|Hc]; [auto | cbn in Hc; lia]).
-      rewrite last_field_cons in Hlast.
+    + (* ---- index ---- *)
       destruct (arr_of k) as [c|] eqn:Ha.
       2:{ rewrite remove_inner_index_none by auto. cbn [fst]. unfold rm_res.
-          destruct v; cbn [rm]; auto. rewrite member_arr, Ha in Hm. discriminate. }
+          destruct v; try (destruct p; reflexivity || exact Hm). rewrite member_arr, Ha in Hm. discriminate. }
       destruct (rm_index c i) as [[idx|]|] eqn:Hr; [| |discriminate].
-      2:{ rewrite (remove_inner_index_out k i _ false c Hn Ha Hr). cbn [fst]. unfold rm_res.
-          destruct v; cbn [rm]; auto. rewrite member_arr, Ha in Hm.
-          destruct (rm_index_value _ _ _ _ Hm Hr) as [-> _]. exact (eq_ind_r (fun _ => _) eq_refl eq_refl) || auto.
-          rewrite member_arr, Ha. exact Hm. }
+      2:{ rewrite (remove_inner_index_out k i _ cpt c Hn Ha Hr). cbn [fst]. unfold rm_res.
+          destruct v as [ | | | | | | | vs | ]; try (destruct p; exact Hm).
+          pose proof Hm as Hm'. rewrite member_arr, Ha in Hm'.
+          destruct (rm_index_value _ _ _ _ Hm' Hr) as [Hget _].
+          destruct p as [|s' p'].
+          - cbn [rm]. pose proof (arr_remove_get vs i) as Hrg. destruct (arr_remove vs i) as [[old a']|]; [|exact Hm].
+            rewrite Hget in Hrg. discriminate.
+          - rewrite rm_index_inner, Hget. exact Hm. }
+      destruct p as [|s' p'].
+      { (* the last segment *)
+        destruct v as [ | | | | | | | vs | ];
+          try (rewrite (remove_inner_index k i [] cpt c idx Hn Ha Hr);
+               match goal with |- context [let '(c1, co) := ?X in _] => destruct X as [c1 co] end;
+               destruct (compact_a co c1 idx cpt) as [c2 co']; cbn [fst]; unfold rm_res; cbn [rm];
+               apply member_other_arr; [intros; congruence | exact Hm]).
+        rewrite member_arr, Ha in Hm. destruct (rm_index_value _ _ _ _ Hm Hr) as [Hget Hidx].
+        assert (rm_res (VArr vs) [SIndex i] cpt
+                = VArr (match nth_error vs idx with Some _ => list_remove_nth vs idx | None => vs end)) as ->.
+        { unfold rm_res. cbn [rm]. rewrite (arr_remove_at vs i idx Hidx). destruct (nth_error vs idx); reflexivity. }
+        apply (last_index_sound k c i idx vs cpt Hn Ha Hr Hm Hok). }
+      assert (cpt = false) as -> by (destruct Hc as [Hc|Hc]; [auto | cbn in Hc; lia]).
       rewrite (remove_inner_index k i _ false c idx Hn Ha Hr).
       destruct v as [ | | | | | | | vs | ];
         try (match goal with |- context [let '(c1, co) := ?X in _] => destruct X as [c1 co] end;
@@ -577,7 +881,7 @@ Proof.
         unfold rm_res. rewrite rm_index_inner. rewrite Hget. destruct (nth_error vs idx) as [cv|] eqn:Eg.
         -- pose proof (arr_ok_elem _ _ _ _ Hm Eg) as Hcv. rewrite Hcc in Hcv.
            assert (idx < length vs) as Hlt by (apply nth_error_Some; congruence).
-           specialize (IH child cv (wf_arr _ Hwf _ _ Eg) Hlast Hok (or_introl eq_refl) Hcv).
+           specialize (IH child cv (wf_arr _ Hwf _ _ Eg) Hok (or_introl eq_refl) Hcv).
            rewrite Er in IH. cbn [fst] in IH. unfold rm_res in IH.
            destruct (rm cv (s' :: p') false) as [[prev cv'']|] eqn:Erm.
            ++ cbn [andb]. rewrite (arr_set_in_range vs i idx cv'' Hidx Hlt). rewrite member_arr. cbn [arr_of].
@@ -632,11 +936,30 @@ Proof.
     unfold compact_o. destruct (compact _ _ _ c f cpt). exact H.
 Qed.
 
-Theorem remove_sound_fields v k p cpt :
-  wf_value v = true -> last_field p = true -> remove_ok k p cpt = true -> member v k = true ->
+Lemma remove_inner_single_index_co k i cpt : rm_ok k [SIndex i] = true ->
+  snd (remove_inner k [SIndex i] cpt) <> CPanic.
+Proof.
+  intros Hok. destruct (is_never k) eqn:Hn; [cbn [remove_inner]; rewrite Hn; discriminate|].
+  cbn [rm_ok] in Hok. rewrite Hn in Hok.
+  destruct (arr_of k) as [c|] eqn:Ha; [|rewrite remove_inner_index_none by auto; discriminate].
+  destruct (rm_index c i) as [[idx|]|] eqn:Hr; [| |discriminate].
+  2:{ rewrite (remove_inner_index_out k i [] cpt c Hn Ha Hr). discriminate. }
+  rewrite (remove_inner_index k i [] cpt c idx Hn Ha Hr).
+  destruct (aget Nat.eqb (known c) idx) as [child|].
+  - pose proof (remove_inner_nil_co child cpt) as Hco. destruct (remove_inner child [] cpt) as [child' co].
+    cbn [snd] in Hco. pose proof (compact_not_panic remove_shift cunion_a co
+      (set_known c (aset Nat.compare (known c) idx child')) idx cpt Hco) as H.
+    unfold compact_a. destruct (compact _ _ co _ idx cpt). exact H.
+  - pose proof (remove_inner_nil_co (at_path k [SIndex i]) cpt) as Hco.
+    pose proof (compact_not_panic remove_shift cunion_a _ c idx cpt Hco) as H.
+    unfold compact_a. destruct (compact _ _ _ c idx cpt). exact H.
+Qed.
+
+Theorem remove_sound v k p cpt :
+  wf_value v = true -> remove_ok k p cpt = true -> member v k = true ->
   snd (kremove k p cpt) = false /\ member (snd (remove v p cpt)) (fst (fst (kremove k p cpt))) = true.
 Proof.
-  intros Hwf Hlast Hok Hm. unfold remove_ok in Hok. apply andb_true_iff in Hok. destruct Hok as [Hc Hok].
+  intros Hwf Hok Hm. unfold remove_ok in Hok. apply andb_true_iff in Hok. destruct Hok as [Hc Hok].
   destruct p as [|s p].
   - (* the root *)
     split; [reflexivity|]. cbn [kremove remove fst snd].
@@ -648,14 +971,16 @@ Proof.
     + destruct a; [reflexivity | discriminate].
   - assert (cpt = false \/ length (s :: p) <= 1) as Hc'.
     { apply orb_true_iff in Hc. destruct Hc as [Hc|Hc]; [left; apply negb_true_iff; auto | right; apply Nat.leb_le; auto]. }
-    pose proof (rm_sound cpt (s :: p) k v Hwf Hlast Hok Hc' Hm) as Hs.
+    pose proof (rm_sound cpt (s :: p) k v Hwf Hok Hc' Hm) as Hs.
     unfold kremove, remove. destruct (remove_inner k (s :: p) cpt) as [k' co] eqn:Er. cbn [fst snd] in *.
     split.
     + destruct Hc' as [->|Hl].
       * pose proof (remove_inner_co (s :: p) k ltac:(congruence) Hok) as Hco. rewrite Er in Hco. cbn in Hco.
         subst co. reflexivity.
-      * destruct p; [|cbn in Hl; lia]. destruct s as [f|i]; [|discriminate].
-        pose proof (remove_inner_single_field_co k f cpt) as Hco. rewrite Er in Hco. cbn in Hco.
-        destruct co; congruence.
+      * destruct p; [|cbn in Hl; lia]. destruct s as [f|i].
+        -- pose proof (remove_inner_single_field_co k f cpt) as Hco. rewrite Er in Hco. cbn in Hco.
+           destruct co; congruence.
+        -- pose proof (remove_inner_single_index_co k i cpt Hok) as Hco. rewrite Er in Hco. cbn in Hco.
+           destruct co; congruence.
     + unfold rm_res in Hs. destruct (rm v (s :: p) cpt) as [[prev v']|]; exact Hs.
 Qed.
